@@ -291,7 +291,7 @@ func reportedLevels(lg *zap.Logger, core zapcore.Core, root *gen.Comp) string {
 
 // Run is the C05 monitor.
 func Run(r *ev.Run) {
-	r.Rule = "case i = f(seed,i): a core composition (observer/JSON/console leaves with static, atomic and arbitrary non-monotone enablers under tee, increase-level, hooks, lazy, with, pass-through and really dropping samplers (each message is then logged twice); depth <= 4 quick / 6 thorough) built together with its delivery model; every one of the 256 levels is logged through Logger.Log plus a rotating second front end; Enabled/Level/LevelOf/V/slog Enabled compared with delivery; then 3 rounds of AtomicLevel changes with re-judging; distinct = distinct composition strings; non-trivial = has a wrapper"
+	r.Rule = "case i = f(seed,i): a core composition (observer/JSON/console leaves with static, atomic and arbitrary non-monotone enablers under tee, increase-level, hooks, lazy, with, pass-through and really dropping samplers (each message is then logged twice); depth <= 4 quick / 6 thorough) built together with its delivery model; every one of the 256 levels is logged through Logger.Log plus a rotating second front end; Enabled/Level/LevelOf/V/slog Enabled compared with delivery; then 3 rounds of AtomicLevel changes with re-judging; distinct = distinct composition strings; non-trivial = has a wrapper; one call in three at debug..error followed by a record given directly to the slog Handler.Handle with counting LogValuers"
 	n := r.N(2500, 60000)
 	fes := frontEnds()
 	for i := 0; i < n; i++ {
